@@ -584,6 +584,70 @@ static void bit_history(vt::Rng& r) {
   if (data.size()) ev_pget(rd, R[0], r.below(data.size()));
 }
 
+// ---------------------------------------------------------------- buffers beyond 64 KiB / 128 KiB
+// The data follow a formula that the specification evaluates itself (event rnewgen / swgen), so that nothing of the size of
+// the buffer has to be logged: byte i = (i * a + (i / 256) * b + c) mod 256.
+static string gen_pattern(size_t n, unsigned a, unsigned b, unsigned c) {
+  string s(n, 0);
+  for (size_t i = 0; i < n; i++) s[i] = (char)((i * a + (i / 256) * b + c) & 0xFF);
+  return s;
+}
+static void big_history(vt::Rng& r, int variant) {
+  reset_event();
+  size_t base = variant % 3 == 0 ? 65536 : variant % 3 == 1 ? 131072 : 65536 * 3;
+  size_t n = base + 40 + r.below(300);
+  unsigned a = 1 + 2 * (unsigned)r.below(100), b = (unsigned)r.below(256), c = (unsigned)r.below(256);
+  string data = gen_pattern(n, a, b, c);
+  uint8_t* buf = (uint8_t*)malloc(n);
+  memcpy(buf, data.data(), n);
+  StringReader rd(buf, n);
+  {
+    vt::J j;
+    j.str("e", "rnewgen").num("n", n).num("a", a).num("b", b).num("c", c);
+    tr.emit(j);
+  }
+  for (auto& acc : R) {
+    uint64_t offs[] = {base - acc.w, base - 1, base, base + 1 + r.below(38), r.below(n - 8), n - acc.w, n - acc.w + 1};
+    for (uint64_t off : offs) ev_pget(rd, acc, off);
+    tr.nontrivial("pgetbig" + to_string(acc.w));
+  }
+  for (int k = 0; k < 6; k++) {
+    ev_go(rd, k == 0 ? base - 1 : k == 1 ? base : base + r.below(40));
+    ev_get(rd, R[r.below(R.size())], true);
+    ev_read(rd, "read", 0, 1 + r.below(6), true);
+  }
+  free(buf);
+  // the growable writer: filled with the pattern in one block, then positional writes beyond the 64 KiB marks; only a window
+  // around the write is logged, the driver states whether anything outside the window changed
+  StringWriter sw;
+  sw.write(data);
+  {
+    vt::J j;
+    j.str("e", "swgen").num("n", n).num("a", a).num("b", b).num("c", c).num("size", sw.size());
+    tr.emit(j);
+  }
+  for (auto& acc : W) {
+    uint64_t offs[] = {base - 1, base + r.below(40), n - acc.w, n - 1};
+    for (uint64_t off : offs) {
+      uint64_t v = interesting(r, acc.w, acc.is_float);
+      string before = sw.str();
+      string out = guarded([&] { acc.pput(sw, off, v); });
+      const string& after = sw.str();
+      size_t lo = off >= 8 ? off - 8 : 0, hi = min<size_t>(after.size(), off + 16);
+      bool same = after.size() >= before.size();
+      for (size_t i = 0; same && i < before.size(); i++)
+        if ((i < lo || i >= hi) && before[i] != after[i]) same = false;
+      for (size_t i = before.size(); same && i < after.size(); i++)
+        if ((i < lo || i >= hi) && after[i] != 0) same = false;
+      vt::J j;
+      j.str("e", "pputw").str("name", acc.name).str("ord", acc.ord).raw("v", jb(digits_of(v, acc.w))).num("off", off);
+      j.str("out", out).num("lo", lo).bytes("win", after.data() + lo, hi - lo).num("same", same).num("size", after.size());
+      tr.emit(j);
+      tr.nontrivial("pputbig" + to_string(acc.w));
+    }
+  }
+}
+
 // ---------------------------------------------------------------- C02 boundary sweeps
 static vector<uint64_t> boundary_set(size_t n) {
   vector<uint64_t> b = {0, 1, n, n + 1, n + 7, 1ULL << 31, 1ULL << 32, (1ULL << 63) - 1, 1ULL << 63, (1ULL << 63) + 1,
@@ -755,6 +819,7 @@ int main(int argc, char** argv) {
       if (i % 4 == 0) bw_history(r, false);
       if (i % 4 == 1) bit_history(r);
     }
+    if (quick ? shard == 0 : true) big_history(r, quick ? (int)(seed % 3) : shard);
     if (shard == 0) {
       // every writer accessor x single-lane patterns, read back by the specification from the bytes
       for (auto& a : W) {
